@@ -167,6 +167,42 @@ impl Profile {
     }
 }
 
+fn varint(v: u128, min_width: u8) -> Vec<u8> {
+    // bincode's variable-length integers: one byte below 251, otherwise a tag (251: u16, 252: u32, 253: u64, 254: u128)
+    // followed by the little-endian value; every value may be written with a wider tag than it needs
+    let need = if v < 251 { 0 } else if v <= u16::MAX as u128 { 1 } else if v <= u32::MAX as u128 { 2 } else if v <= u64::MAX as u128 { 3 } else { 4 };
+    let w = need.max(min_width.min(4));
+    match w {
+        0 => vec![v as u8],
+        1 => [vec![251u8], (v as u16).to_le_bytes().to_vec()].concat(),
+        2 => [vec![252u8], (v as u32).to_le_bytes().to_vec()].concat(),
+        3 => [vec![253u8], (v as u64).to_le_bytes().to_vec()].concat(),
+        _ => [vec![254u8], v.to_le_bytes().to_vec()].concat(),
+    }
+}
+
+/// A stake document with some of its three integers written wider than necessary. Falls back to the canonical bytes
+/// unless the result decodes to exactly the same document (so the encoding is valid by construction).
+pub fn padded_stake_doc(doc: &StakeDoc, sel: u8) -> Vec<u8> {
+    let canon = stdcode::serialize(doc).unwrap();
+    let ints = [doc.e_start as u128, doc.e_post_end as u128, doc.syms_staked.0];
+    let tail_len: usize = [varint(ints[0], 0), varint(ints[1], 0)].iter().map(|v| v.len()).sum::<usize>() + varint(ints[2], 0).len();
+    if tail_len > canon.len() {
+        return canon;
+    }
+    let mut out = canon[..canon.len() - tail_len].to_vec();
+    for (i, v) in ints.iter().enumerate() {
+        // u64 fields can be widened up to the u64 tag, the u128 amount up to the u128 tag
+        let max_w = if i < 2 { 3 } else { 4 };
+        let w = if (sel >> i) & 1 == 1 { ((sel >> (3 + i)) % 4 + 1).min(max_w) } else { 0 };
+        out.extend_from_slice(&varint(*v, w));
+    }
+    match stdcode::deserialize::<StakeDoc>(&out) {
+        Ok(d) if stdcode::serialize(&d).unwrap() == canon && out != canon => out,
+        _ => canon,
+    }
+}
+
 /// A `TxPlan::kind` byte that the builder maps to transaction kind `want` under profile `p` (searching from `salt`).
 pub fn kind_byte(p: &Profile, want: usize, salt: u8) -> u8 {
     for d in 0..=255u8 {
@@ -426,6 +462,21 @@ pub fn spell_pool(k: PoolKey, spell: u8, odd: bool) -> (Vec<u8>, &'static str) {
         v.extend_from_slice(&stdcode::serialize(&(a, b)).unwrap());
         v
     };
+    if spell % 7 == 6 {
+        // the long form in canonical order with a non-minimal length prefix (bincode accepts a wider varint tag
+        // than the value needs): a valid, rarely used encoding that parses to the very same key
+        let plain = long(k.left(), k.right());
+        let mut v = plain[..32].to_vec();
+        let body = &plain[32..];
+        if !body.is_empty() && (body[0] as usize) < 251 && body.len() > body[0] as usize {
+            v.extend_from_slice(&[251, body[0], 0]);
+            v.extend_from_slice(&body[1..]);
+            if PoolKey::from_bytes(&v) == Some(k) {
+                return (v, "long-nonminimal-varint");
+            }
+        }
+        return (plain, "long-canonical-order");
+    }
     match spell % 6 {
         0 => (long(k.right(), k.left()), "long-reversed"),
         1 => (long(k.left(), k.right()), "long-canonical-order"),
@@ -643,6 +694,18 @@ impl<'a> Builder<'a> {
         Builder { w, p, avail: w.wallet.clone(), mult: snap.fee_mult, height: snap.height, pools, batch_created: vec![], batch_spent: vec![], batch_faucet_fees: 0, pool_liqs: snap.pools.iter().filter(|(k, p)| k.left() != k.right() && p.liqs > 0).map(|(k, p)| (*k, p.liqs)).collect() }
     }
 
+    /// Destination address of a generic output: usually one of the harness's covenants; one in sixteen is a *twin* of
+    /// such an address - equal in its leading bytes (8 to 31 of them), different later - which nobody can spend but
+    /// which every per-address structure (coin counts, sorted runs, prefix-keyed maps) must keep apart.
+    fn dest_hash(&self, d: u8, salt: u8) -> melstructs::Address {
+        let mut a = self.dest(d).hash();
+        if salt % 16 == 15 {
+            let at = [8usize, 9, 16, 31][(salt as usize / 16) % 4];
+            a.0 .0[at] ^= 0x40;
+        }
+        a
+    }
+
     fn dest(&self, d: u8) -> CovSpec {
         if self.p.header_covenants {
             CovSpec::from_sel_with_header(d)
@@ -709,7 +772,7 @@ impl<'a> Builder<'a> {
             let d = denoms[op.denom as usize % denoms.len()];
             let idx = tx.outputs.len();
             tx.outputs.push(CoinData {
-                covhash: self.dest(op.dest).hash(),
+                covhash: self.dest_hash(op.dest, op.adata),
                 value: CoinValue(0),
                 denom: d,
                 additional_data: adata(op.adata),
@@ -756,10 +819,17 @@ impl<'a> Builder<'a> {
 
     fn finish(&self, mut tx: Transaction, inputs: Vec<WCoin>, tp: &TxPlan, mel_slots: &[(usize, u8)], fixed_mel: u128) -> Built {
         placeholder_sigs(&mut tx, &inputs);
+        // a transaction that needs no signature may still carry a list of empty ones: same identity (hash without
+        // signatures), another serialisation
+        let blanks = if tx.sigs.is_empty() && tp.fee % 16 == 13 { 1 + (tp.fee as usize / 16) % 2 } else { 0 };
+        tx.sigs.extend((0..blanks).map(|_| bytes::Bytes::new()));
         let mel_in = *Self::totals(&inputs).get(&Denom::Mel).unwrap_or(&0);
         let has_mel = inputs.iter().any(|c| c.cdh.coin_data.denom == Denom::Mel);
         let ok = settle_fee(&mut tx, mel_in, fixed_mel, mel_slots, self.mult, tip_class(tp.fee));
         sign_tx(&mut tx, &inputs, false);
+        if blanks > 0 && tx.sigs.is_empty() {
+            tx.sigs.extend((0..blanks).map(|_| bytes::Bytes::new()));
+        }
         Built { tx, inputs, valid: ok && has_mel, spelling: None, pool: None }
     }
 
@@ -845,7 +915,7 @@ impl<'a> Builder<'a> {
             if issued.saturating_add(v) > (1u128 << 124) {
                 v = 1000;
             }
-            tx.outputs.push(CoinData { covhash: self.dest(op.dest).hash(), value: CoinValue(v), denom: d, additional_data: adata(op.adata) });
+            tx.outputs.push(CoinData { covhash: self.dest_hash(op.dest, op.adata.wrapping_mul(7)), value: CoinValue(v), denom: d, additional_data: adata(op.adata) });
         }
         tx.data = vec![tp.data, tp.spell, tp.amount].into();
         tx.fee = CoinValue(match tp.fee % 4 {
@@ -1158,7 +1228,14 @@ impl<'a> Builder<'a> {
         let staked = if tp.data % 8 == 7 { amt + 1 } else { amt };
         let doc = StakeDoc { pubkey: pk(tp.mparam as usize), e_start: start, e_post_end: end, syms_staked: CoinValue(staked) };
         let mut tx = self.base(TxKind::Stake, &inputs);
-        tx.data = if tp.data % 16 == 15 { vec![1, 2, 3].into() } else { stdcode::serialize(&doc).unwrap().into() };
+        tx.data = if tp.data % 16 == 15 {
+            vec![1, 2, 3].into()
+        } else if tp.data % 16 == 14 {
+            // the same document in a valid but non-minimal serialisation (integers written with wider varint tags)
+            padded_stake_doc(&doc, tp.mparam as u8).into()
+        } else {
+            stdcode::serialize(&doc).unwrap().into()
+        };
         let dest = self.dest(tp.outs[0].dest);
         tx.outputs.push(CoinData { covhash: dest.hash(), value: CoinValue(amt), denom: Denom::Sym, additional_data: Default::default() });
         let mut reserved = BTreeMap::new();
@@ -1219,7 +1296,16 @@ impl<'a> Builder<'a> {
                 if b.tx.covenants.is_empty() {
                     return (b, None, false);
                 }
-                b.tx.covenants.pop();
+                if j % 3 == 0 {
+                    // no covenant at all - and, sometimes, as a faucet (which is exempt from balancing, not from
+                    // authorisation)
+                    b.tx.covenants.clear();
+                    if j % 2 == 0 {
+                        b.tx.kind = TxKind::Faucet;
+                    }
+                } else {
+                    b.tx.covenants.pop();
+                }
             }
             "garbage-covenant" => {
                 if b.tx.covenants.is_empty() {
